@@ -130,7 +130,10 @@ namespace Pistache::Tcp
                     auto tag = entry.getTag();
                     if (isPeerFd(tag))
                     {
-                        auto& peer = getPeer(tag);
+                        // (a copy: what the handler does with the input can end in the removal
+                        // of this very peer from the table - a flush that completes the 408 of
+                        // the idle scan, whose continuation removes the peer)
+                        auto peer = getPeer(tag);
                         handleIncoming(peer);
                     }
                     else if (isTimerFd(tag))
@@ -230,6 +233,11 @@ namespace Pistache::Tcp
             else
             {
                 handler_->onInput(buffer, bytes, peer);
+                // the peer may have been removed while its input was handled: its descriptor is
+                // closed (or already belongs to another connection)
+                auto it = peers.find(fd);
+                if (it == std::end(peers) || it->second != peer)
+                    break;
             }
         }
     }
